@@ -224,14 +224,23 @@ theorem pinv_filterAcc {P : Pool} (h : PInv P) (a : Nat) : PInv (P.filterAcc a) 
       (by rw [hdiff]; unfold orph; omega)
     exact hrep.congr (by rw [dropTxs_lists]; rfl) rfl (by rw [dropTxs_length]; rfl) (by rw [dropTxs_orphan]; rfl)
 
+theorem setStateDB_fields (P : Pool) (new parent chain : Nat) (σ : Nat → Acct) :
+    (P.setStateDB new parent chain σ).1.lists = P.lists ∧ (P.setStateDB new parent chain σ).1.cache = P.cache ∧
+    (P.setStateDB new parent chain σ).1.length = P.length ∧ (P.setStateDB new parent chain σ).1.orphan = P.orphan := by
+  unfold Pool.setStateDB
+  split
+  · split <;> exact ⟨rfl, rfl, rfl, rfl⟩
+  · exact ⟨rfl, rfl, rfl, rfl⟩
+
+theorem pinv_setStateDB {P : Pool} (h : PInv P) (new parent chain : Nat) (σ : Nat → Acct) :
+    PInv (P.setStateDB new parent chain σ).1 := by
+  obtain ⟨a, b, c, d⟩ := setStateDB_fields P new parent chain σ
+  exact h.congr a b c d
+
 theorem pinv_blockArrival {P : Pool} (h : PInv P) (new parent chain : Nat) (dirty : List Nat) (σ : Nat → Acct) :
     PInv (P.blockArrival new parent chain dirty σ) := by
   unfold Pool.blockArrival
-  have hS : PInv (P.setStateDB new parent chain σ).1 := by
-    unfold Pool.setStateDB
-    split
-    · split <;> exact h.congr rfl rfl rfl rfl
-    · exact h
+  have hS : PInv (P.setStateDB new parent chain σ).1 := pinv_setStateDB h new parent chain σ
   simp only
   split
   · exact ⟨by simp [Pool.resetAll], by simp [Pool.resetAll], by simp [Pool.resetAll], by simp [Pool.resetAll],
